@@ -58,5 +58,7 @@ TwinDecorated(B) == {Node(s, {Node(Assn(p, o), {Assn(KV(4), p)}), Node(Assn(p, o
                        s \in B, p \in B, o \in B} \ {Node(s, {Node(Assn(p, p), {Assn(KV(4), p)})}) : s \in B, p \in B}
 \* an assertion element decorated twice (a node over a node over an assertion)
 DeepDecorated(B) == {Node(s, {Node(Node(Assn(p, o), {Assn(KV(4), p)}), {Assn(KV(4), o)})}) : s \in B, p \in B, o \in B}
+\* the same assertion at two depths: on the subject and on a nested object (multi-position targets)
+MultiPos(B) == {Node(s, {a, Assn(p, Node(o, {a}))}) : s \in B, p \in B, o \in B, a \in AL(B, 3)}
 ShUpTo(B, n) == IF n = 0 THEN {} ELSE Sh(B, n) \cup ShUpTo(B, n - 1)
 =============================================================================
